@@ -332,8 +332,9 @@ inductive Ev where
   | repoDelta (ca uri : String) (delta : List DeltaEl) (reply : Except String Unit) (now : Nat)
   /-- `get_entitlements_from_contact`: a failure is only recorded for an existing parent. -/
   | parentList (ca p uri : String) (existing : Bool) (reply : Except String Entitlements) (now : Nat)
-  /-- `send_revoke_requests` (also with no request at all: success). -/
-  | parentRevokes (ca p uri : String) (reply : Except String Unit) (now : Nat)
+  /-- `send_revoke_requests` with `sent` revocation requests (also with no request at all, and
+  then without talking to the parent: success). -/
+  | parentRevokes (ca p uri : String) (sent : Nat) (reply : Except String Unit) (now : Nat)
   /-- `send_cert_requests_handle_responses`: `err` iff `errors` is not empty. -/
   | parentCerts (ca p uri : String) (reply : Except String Unit) (now : Nat)
   /-- `rfc6492_process_request` reached its `// Set child status` block. -/
@@ -358,8 +359,8 @@ def step (s : Store) : Ev → Store
   | .parentList ca p uri _ (.ok ent) now => s.updateParent ca p fun x => x.setEntitlements uri ent now
   | .parentList ca p uri existing (.error e) now =>
       if existing then s.updateParent ca p fun x => x.setFailure uri e now else s
-  | .parentRevokes ca p uri (.ok ()) now => s.updateParent ca p fun x => x.setLastUpdated uri now
-  | .parentRevokes ca p uri (.error e) now => s.updateParent ca p fun x => x.setFailure uri e now
+  | .parentRevokes ca p uri _ (.ok ()) now => s.updateParent ca p fun x => x.setLastUpdated uri now
+  | .parentRevokes ca p uri _ (.error e) now => s.updateParent ca p fun x => x.setFailure uri e now
   | .parentCerts ca p uri (.ok ()) now => s.updateParent ca p fun x => x.setLastUpdated uri now
   | .parentCerts ca p uri (.error e) now => s.updateParent ca p fun x => x.setFailure uri e now
   | .childRequest ca c agent (.ok ()) now => s.updateChild ca c fun x => x.setSuccess agent now
@@ -384,7 +385,7 @@ to a parent; the refused check of a parent that is only being added is not recor
 def Ev.parentAttempt? : Ev → Option (String × String × Exchange)
   | .parentList ca p uri _ (.ok _) now => some (ca, p, ⟨now, uri, .success⟩)
   | .parentList ca p uri true (.error e) now => some (ca, p, ⟨now, uri, .failure e⟩)
-  | .parentRevokes ca p uri r now => some (ca, p, ⟨now, uri, resultOf r⟩)
+  | .parentRevokes ca p uri _ r now => some (ca, p, ⟨now, uri, resultOf r⟩)
   | .parentCerts ca p uri r now => some (ca, p, ⟨now, uri, resultOf r⟩)
   | _ => none
 
@@ -418,7 +419,7 @@ def Ev.removesChild (e : Ev) (ca c : String) : Bool :=
 def Ev.touchesParent (e : Ev) (ca p : String) : Bool :=
   match e with
   | .parentList ca' p' _ _ _ _ => ca' = ca && p' = p
-  | .parentRevokes ca' p' _ _ _ => ca' = ca && p' = p
+  | .parentRevokes ca' p' _ _ _ _ => ca' = ca && p' = p
   | .parentCerts ca' p' _ _ _ => ca' = ca && p' = p
   | _ => e.removesParent ca p
 
@@ -441,6 +442,13 @@ def Ev.parentSuccess (e : Ev) (ca p : String) : Bool :=
   match e.parentAttempt? with
   | some (ca', p', x) => ca' = ca && p' = p && x.result.wasSuccess
   | none => false
+
+/-- An exchange in which parent `p` of `ca` really answered positively: a "success" of
+`send_revoke_requests` with no request to send is not one. -/
+def Ev.parentAnswered (e : Ev) (ca p : String) : Bool :=
+  match e with
+  | .parentRevokes _ _ _ sent _ _ => e.parentSuccess ca p && decide (sent > 0)
+  | _ => e.parentSuccess ca p
 
 /-- A successful list query to parent `p` of `ca` (the only exchange that returns entitlements). -/
 def Ev.parentListSuccess (e : Ev) (ca p : String) : Bool :=
@@ -514,12 +522,12 @@ def repoSyncEvents (ca uri : String) (embedded : Bool) (server : Option (List Fi
 
 /-- `ca_sync_parent`: with pending requests first the revocations, then (only if those went
 through) the certificate requests; otherwise one list query. -/
-def syncParentEvents (ca p uri : String) (pending : Bool)
+def syncParentEvents (ca p uri : String) (pending : Bool) (nRevokes : Nat)
     (revokes certs : Except String Unit) (list : Except String Entitlements) (now : Nat) : List Ev :=
   if pending then
     match revokes with
-    | .error e => [.parentRevokes ca p uri (.error e) now]
-    | .ok () => [.parentRevokes ca p uri (.ok ()) now, .parentCerts ca p uri certs now]
+    | .error e => [.parentRevokes ca p uri nRevokes (.error e) now]
+    | .ok () => [.parentRevokes ca p uri nRevokes (.ok ()) now, .parentCerts ca p uri certs now]
   else [.parentList ca p uri true list now]
 
 /-- A provisioning request arriving at `parent` from `child`.
